@@ -9,7 +9,7 @@ from datetime import datetime, timedelta
 
 FAMILIES = [
     "walk", "trend_up", "trend_down", "flat", "flat_runs", "plateau", "zero_vol", "equal_vol",
-    "spiky", "dyadic", "flat_start", "mono_start",
+    "spiky", "dyadic", "flat_start", "mono_start", "zero_vol_start",
 ]
 
 
@@ -60,7 +60,7 @@ def prices(rng, n, family, level=None):
     p = level
     out = []
     flat_left = 0
-    if family in ("flat_start", "mono_start"):
+    if family in ("flat_start", "mono_start", "zero_vol_start"):
         head = rng.randint(3, min(max(4, n // 2), 60))
     else:
         head = 0
@@ -102,6 +102,8 @@ def prices(rng, n, family, level=None):
         else:
             o, h, l, c = _walk_candle(rng, p, scale, spiky=(family == "spiky"))
             p = c
+        if family == "zero_vol_start" and i < head:
+            v = 0
         if family == "zero_vol":
             if rng.random() < 0.7:
                 v = 0
